@@ -16,6 +16,7 @@
 -/
 import TypedpyModel.Lemmas.RoundTrip
 import TypedpyModel.Lemmas.RoundTripX
+import TypedpyModel.Lemmas.TextStable
 namespace Typedpy.C05
 open Typedpy
 
@@ -474,6 +475,33 @@ theorem class_round_trip_none_attrs_example :
       | .ok (.inst "Inner" [("a", .int 5)]) => true | _ => false) = true := by
   decide
 
+
+/-! ### through JSON text -/
+
+/-- **C05 through JSON TEXT (partial: documents whose object keys are strings)**: for every class and instance of the
+    proved fragment, if the serialized document is a JSON document in the strict sense (`docStable`: every object key
+    is a string - the case unless a Map with Integer keys is involved, see `map_int_keys_text_counterexample`), then
+    `json.loads(json.dumps(·))` returns it unchanged and `Deserializer(cls).deserialize(json.loads(json.dumps(
+    Serializer(x).serialize())))` gives back exactly `x` -/
+theorem class_text_round_trip_partial (O : Oracles) (opts : DeserOpts) (c : ClassOpts)
+    (fields : List (String × FieldDecl)) (defaults : List (String × PyVal)) (x : PyVal)
+    (hf : inFrag O (.struct c fields defaults) x = true) :
+    ∃ j, serialize O (.struct c fields defaults) x = .ok j ∧ isJson j = true
+      ∧ (docStable j = true →
+          jsonRound j = some j
+          ∧ (jsonRound j).map (deserialize O opts (.struct c fields defaults)) = some (.ok x)) := by
+  rcases class_round_trip_partial O opts c fields defaults x hf with ⟨j, h1, h2, h3⟩
+  refine ⟨j, h1, h2, fun hs => ?_⟩
+  have := c05_jsonRound_stable j hs
+  exact ⟨this, by rw [this]; simp [h3]⟩
+
+theorem class_text_round_trip_example :
+    (match serialize exO exOuter exInst with
+      | .ok j => docStable j && (match (jsonRound j).map (deserialize exO {} exOuter) with
+          | some (.ok (.inst "Outer" [("n", .inst "Inner" [("a", .int 0)]), ("tag", .str ""), ("xs", .list [])])) => true
+          | _ => false)
+      | .error _ => false) = true := by
+  decide
 
 /-! ### known finding: Map with non-string keys through JSON text -/
 
